@@ -18,6 +18,8 @@ import (
 	"servitor/zverif/vgen"
 	"servitor/zverif/vrep"
 	"servitor/zverif/vsim"
+	"servitor/zverif/vui"
+	"servitor/ui"
 )
 
 var sim *vsim.Sim
@@ -141,6 +143,16 @@ func check(c Case) vrep.Result {
 			sawTarget = true
 		}
 	}
+	// a URL whose scheme is not https must never be requested, whichever listener its authority names
+	if c.Kind != "handle" && !strings.EqualFold(c.Scheme, "https") && c.Scheme != "" {
+		allowed := 0
+		if c.Kind == "planted" || c.Kind == "location" {
+			allowed = 1 // the document / redirect that carries the URL
+		}
+		if len(log) > allowed {
+			return vrep.Result{Classes: classes, Err: fmt.Errorf("a %s URL led to a request: %q\ncase input: %q", c.Scheme, log[len(log)-1].Request, c.describe(expand))}
+		}
+	}
 	if n := sim.CanaryConnections(); n != canary {
 		return vrep.Result{Classes: classes, Err: fmt.Errorf("a plaintext connection reached the canary listener\ncase input: %q", c.describe(expand))}
 	}
@@ -233,4 +245,44 @@ func gen(t *rapid.T) Case {
 }
 
 func TestProp(t *testing.T)   { vrep.Run(t, "Prop", true, gen, check) }
-func TestReplay(t *testing.T) { vrep.Replay(t, "Prop", check) }
+func TestReplay(t *testing.T) {
+	switch vrep.ReplayCheckName() {
+	case "Browse":
+		vrep.Replay(t, "Browse", checkBrowse)
+	default:
+		vrep.Replay(t, "Prop", check)
+	}
+}
+
+// Browse: every request issued while generated key histories browse generated worlds (C07's
+// driver) goes through the same recogniser.
+func checkBrowse(c vui.HistCase) vrep.Result {
+	seen := 0
+	judgeNew := func() error {
+		sim.Quiesce()
+		log := sim.Log()
+		for _, conn := range log[seen:] {
+			if err := judge(conn); err != nil {
+				return err
+			}
+		}
+		seen = len(log)
+		return nil
+	}
+	sim.ResetLog()
+	canary := sim.CanaryConnections()
+	r := vui.RunHistory(sim, c, vui.Options{NoModel: true, OnKey: func(key byte, snap ui.VerifSnap, last string) error { return judgeNew() }})
+	if r.Err == nil {
+		if err := judgeNew(); err != nil {
+			r.Err = err
+		}
+	}
+	if r.Err == nil && sim.CanaryConnections() != canary {
+		r.Err = fmt.Errorf("a plaintext connection reached the canary listener while browsing")
+	}
+	r.Classes = append(r.Classes, fmt.Sprintf("requests>=%d", (seen/20)*20))
+	r.Nontrivial = seen >= 5
+	return r
+}
+
+func TestBrowse(t *testing.T) { vrep.Run(t, "Browse", true, vui.GenHistCase, checkBrowse) }
